@@ -361,8 +361,8 @@ func genLookup(t *Tracer, m *Meta, prop, tier string, seed int64) {
 	nMed := 24
 	maxN := 600
 	if !quick {
-		nMed = 300
-		maxN = 3000
+		nMed = 120 // x 2 option combinations; a 2000-key trie costs TLC about a minute
+		maxN = 2000
 	}
 	for i := 0; i < nMed; i++ {
 		fam := familyNames[i%len(familyNames)]
